@@ -5,7 +5,11 @@
 (* step guard is the property relation ReqOK / RespOK of ActionsP).  A case the   *)
 (* property does not permit is reported as  <<"REJECT", line, id>>  and the       *)
 (* validation goes on, so that one run lists every rejected case.                 *)
-EXTENDS ActionsP, TraceLib
+(* In the same pass the real output is compared with what the implementation-     *)
+(* shaped model ActionsI computes for the sequence; a difference is reported as   *)
+(* <<"DRIFT", line, id>> (the code no longer behaves like the model - not a       *)
+(* violation of the property).                                                    *)
+EXTENDS ActionsI, TraceLib
 
 VARIABLE l
 
@@ -16,12 +20,28 @@ Permitted(e) ==
       [] e.ev = "resp" -> RespOK(e.seq, e.out)
       [] OTHER -> FALSE
 
-TInit == l = 0
-TNext == /\ l < TraceLen
-         /\ l' = l + 1
-         /\ IF Permitted(Ev) THEN TRUE ELSE PrintT(<<"REJECT", l + 1, Ev.id>>)
+RECURSIVE FoldI(_, _, _)
+FoldI(sd, a, q) == IF q = <<>> THEN a
+                   ELSE FoldI(sd, IF sd = "req" THEN ReqPrioritize(a, Rel(Head(q))) ELSE RespPrioritize(a, Rel(Head(q))), Tail(q))
 
-TraceSpec == TInit /\ [][TNext]_l
+SameOut(o, m) ==
+    /\ ToSet(o.names) = ToSet(m.names) /\ Len(o.names) = Len(m.names)
+    /\ o.early = m.early /\ o.modreq = m.modreq /\ o.gen = m.gen /\ o.modresp = m.modresp /\ o.retry = m.retry
+    /\ o.st = m.st /\ o.body = m.body /\ o.qbody = m.qbody /\ o.path = m.path /\ o.host = m.host /\ o.query = m.query
+    /\ Pairs(o.rh) = Pairs(m.rh) /\ Pairs(o.qh) = Pairs(m.qh) /\ Pairs(o.th) = Pairs(m.th)
+
+LikeModel(e) ==
+    LET r == FoldI(e.ev, Blank, e.seq) IN
+    SameOut(e.out, IF e.ev = "req" THEN ReqToSpoeActions(r) ELSE RespToSpoeActions(r))
+
+\* the variables of ActionsI are not used by the validation (the fold is recomputed per event)
+TInit == l = 0 /\ side = "req" /\ s = <<>> /\ acc = Blank
+TNext == /\ l < TraceLen
+         /\ l' = l + 1 /\ UNCHANGED ivars
+         /\ IF Permitted(Ev) THEN TRUE ELSE PrintT(<<"REJECT", l + 1, Ev.id>>)
+         /\ IF Ev.ev \in {"req", "resp"} /\ ~LikeModel(Ev) THEN PrintT(<<"DRIFT", l + 1, Ev.id>>) ELSE TRUE
+
+TraceSpec == TInit /\ [][TNext]_<<l, ivars>>
 HWM == Mark(l)
 Post == Report
 =============================================================================
